@@ -40,7 +40,24 @@ struct Bytes {
   std::vector<size_t> bounds;                       // structural boundaries (for truncation)
   std::vector<std::pair<size_t, const char *>> marks;  // binary record markers: offset, which
   void mark_bound() { bounds.push_back(b.size()); }
+  // binary only: where the elements of each vector lie (for "how many values does a truncated file hold")
+  struct Span { size_t off, esz; long n; };
+  Span dual{0, 8, 0}, primal{0, 8, 0};
+  std::vector<Span> sufspans;
 };
+// number of elements of a span that are completely inside the first `size` bytes
+static long avail_of(const Bytes::Span &sp, size_t size) {
+  if (size <= sp.off) return 0;
+  long k = (long)((size - sp.off) / sp.esz);
+  return k > sp.n ? sp.n : k;
+}
+// "avail" field of the next Case records: values completely present in the file per vector (-1 = not stated)
+static std::string G_AVAIL = "{\"dual\":-1,\"primal\":-1,\"suf\":[]}";
+static std::string avail_json(const Bytes &b, size_t size) {
+  std::string o = "{\"dual\":" + std::to_string(avail_of(b.dual, size)) + ",\"primal\":" + std::to_string(avail_of(b.primal, size)) + ",\"suf\":[";
+  for (size_t i = 0; i < b.sufspans.size(); ++i) o += (i ? "," : "") + std::to_string(avail_of(b.sufspans[i], size));
+  return o + "]}";
+}
 
 static std::vector<double> TABLE;   // doubles behind the atoms (values are irrelevant for C14)
 
@@ -144,10 +161,12 @@ static Bytes to_binary(const SolFile &f) {
     rec_open(o, (long)r.size(), "opt<"); o.b += r; o.bounds.push_back(o.b.size() - 9); rec_close(o, (long)r.size(), "opt>");
   }
   rec_open(o, (long)f.dual.size() * 8, "dual<");
+  o.dual = {o.b.size(), 8, (long)f.dual.size()};
   for (double v : f.dual) put64(o.b, v);
   if (!f.dual.empty()) o.bounds.push_back(o.b.size() - 3);
   rec_close(o, (long)f.dual.size() * 8, "dual>");
   rec_open(o, (long)f.primal.size() * 8, "primal<");
+  o.primal = {o.b.size(), 8, (long)f.primal.size()};
   for (double v : f.primal) put64(o.b, v);
   if (!f.primal.empty()) o.bounds.push_back(o.b.size() - 3);
   rec_close(o, (long)f.primal.size() * 8, "primal>");
@@ -171,6 +190,7 @@ static Bytes to_binary(const SolFile &f) {
     o.bounds.push_back(base + hdr_end - 2); o.bounds.push_back(base + hdr_end);
     o.bounds.push_back(base + name_end - 1); o.bounds.push_back(base + name_end);
     o.bounds.push_back(base + tab_end);
+    o.sufspans.push_back({base + tab_end, (size_t)(s.real ? 12 : 8), (long)s.vals.size()});
     rec_close(o, (long)r.size(), "suf>");
   }
   return o;
@@ -249,7 +269,7 @@ static void one_read(const std::string &bytes, const SolFile &f, const char *fmt
   hdrs += "]";
   emit("{\"e\":\"Case\",\"id\":" + std::to_string(NREAD) + ",\"base\":" + std::to_string(base) + ",\"fmt\":\"" + fmt + "\",\"mut\":" + jstr(mut) +
        ",\"cls\":" + jstr(cls) + ",\"nv\":" + std::to_string(dnv) + ",\"nc\":" + std::to_string(dnc) + ",\"decl\":\"" + dcls + "\",\"mode\":\"" + MODES[mode] +
-       "\",\"valid\":" + (cls == "valid" ? "true" : "false") + ",\"size\":" + std::to_string(bytes.size()) + ",\"hdrs\":" + hdrs + "}");
+       "\",\"valid\":" + (cls == "valid" ? "true" : "false") + ",\"size\":" + std::to_string(bytes.size()) + ",\"avail\":" + (std::string(fmt) == "binary" && std::string(dcls) == "equal" ? G_AVAIL : std::string("{\"dual\":-1,\"primal\":-1,\"suf\":[]}")) + ",\"hdrs\":" + hdrs + "}");
   ++NREAD;
   int rc = run_isolated([&] {
     Rec h;
@@ -368,7 +388,27 @@ int main(int argc, char **argv) {
         Bytes t = b; t.b.resize(cuts[ci]);
         // truncation class: which section the cut falls in (index of the boundary)
         size_t sec = std::lower_bound(b.bounds.begin(), b.bounds.end(), cuts[ci]) - b.bounds.begin();
+        if (fmt == 2) G_AVAIL = avail_json(b, cuts[ci]);
         run_mut(base, fmt, t, "cut@" + std::to_string(cuts[ci]), "trunc:sec" + std::to_string(std::min<size_t>(sec, 12)));
+        G_AVAIL = "{\"dual\":-1,\"primal\":-1,\"suf\":[]}";
+      }
+      if (fmt == 2) {
+        // the file ends inside / just before the last value of a vector: read with the true sizes by a handler that
+        // takes everything (never sampled away)
+        std::vector<std::pair<std::string, Bytes::Span>> spans = {{"dual", b.dual}, {"primal", b.primal}};
+        for (size_t i = 0; i < b.sufspans.size(); ++i) spans.push_back({"suf" + std::to_string(i), b.sufspans[i]});
+        for (auto &sp : spans) {
+          if (sp.second.n < 1) continue;
+          size_t last = sp.second.off + (size_t)(sp.second.n - 1) * sp.second.esz;
+          for (size_t cut : {last, last + 1, last + sp.second.esz / 2, last + sp.second.esz - 1}) {
+            if (cut >= b.b.size()) continue;
+            Bytes t = b; t.b.resize(cut);
+            G_AVAIL = avail_json(b, cut);
+            one_read(t.b, f0, "binary", "partial@" + sp.first + "+" + std::to_string(cut - last), "partial:" + sp.first.substr(0, 3),
+                     (int)f0.nvars, (int)f0.ncons, "equal", ALL, (int)k);
+            G_AVAIL = "{\"dual\":-1,\"primal\":-1,\"suf\":[]}";
+          }
+        }
       }
       if (fmt == 2) {
         for (auto &mk : b.marks) {
